@@ -151,6 +151,10 @@ func vfBoot(o vfBootOpts) *vfWorld {
 		vfDB.Restore(o.Image)
 	} else if !o.KeepData {
 		vfDB.Reset()
+		// an initialised database holds the 'sys' topic (tinode-db / CreateDb), which the hub loads at start
+		if err := vfDB.CreateDb(true); err != nil {
+			panic("memdb CreateDb: " + err.Error())
+		}
 	} else {
 		vfDB.ClearFaults()
 		vfDB.ClearJournal()
